@@ -647,7 +647,7 @@ func finish(p Property, c *Ctx, ff *FindingsFile, all []Result, start time.Time,
 			continue
 		case "broken":
 			broken = true
-			brokenMsgs = append(brokenMsgs, head(r.Message, 500))
+			brokenMsgs = append(brokenMsgs, head(r.Message, 9000))
 			continue
 		}
 		evaluations++
